@@ -95,6 +95,11 @@ struct Stats {
     nontrivial: HashSet<u64>,
     classes: BTreeMap<String, u64>,
     parts: BTreeMap<String, (u64, u64)>,
+    /// seconds spent per part in this worker (time between two `record` calls goes to the later one's part)
+    part_s: BTreeMap<String, f64>,
+    /// parent only: the slowest worker's seconds per part
+    part_max_s: BTreeMap<String, f64>,
+    last_record: Option<Instant>,
     samples: Vec<Value>,
     sample_per_part: BTreeMap<String, u32>,
     violations: Vec<Value>,
@@ -262,6 +267,11 @@ impl Ctx {
         if self.st.evaluations % 64 == 0 {
             self.maybe_dump();
         }
+        let now = Instant::now();
+        if let Some(t) = self.st.last_record {
+            *self.st.part_s.entry(part.to_string()).or_default() += now.duration_since(t).as_secs_f64();
+        }
+        self.st.last_record = Some(now);
         let e = self.st.parts.entry(part.to_string()).or_default();
         e.0 += 1;
         if obs.discarded {
@@ -607,6 +617,7 @@ impl Ctx {
             "evaluations": self.st.evaluations,
             "classes": self.st.classes,
             "parts": self.st.parts.iter().map(|(k, v)| (k.clone(), json!([v.0, v.1]))).collect::<serde_json::Map<_, _>>(),
+            "part_s": self.st.part_s,
             "samples": self.st.samples,
             "violations": self.st.violations,
             "known_hits": self.st.known_hits,
@@ -767,6 +778,7 @@ pub fn main(spec: Spec, body: fn(&mut Ctx)) -> ! {
         let mut ctx = new_ctx(&spec, &a, w, n);
         ctx.out = a.out.clone();
         ctx.last_dump = Some(Instant::now());
+        ctx.st.last_record = Some(Instant::now());
         if w == 0 && !a.no_regressions && a.part.is_none() {
             for f in regression_files(spec.prop) {
                 if let Ok(txt) = std::fs::read_to_string(&f) {
@@ -928,7 +940,21 @@ pub fn main(spec: Spec, body: fn(&mut Ctx)) -> ! {
     coverage.insert("exhaustive_dimensions".into(), json!(merged.exhaustive));
     coverage.insert(
         "parts".into(),
-        Value::Object(merged.parts.iter().map(|(k, v)| (k.clone(), json!({"evaluations": v.0, "distinct_nontrivial": v.1}))).collect()),
+        Value::Object(
+            merged
+                .parts
+                .iter()
+                .map(|(k, v)| {
+                    let r = |x: f64| (x * 10.0).round() / 10.0;
+                    (
+                        k.clone(),
+                        json!({"evaluations": v.0, "distinct_nontrivial": v.1,
+                        "worker_seconds_total": r(merged.part_s.get(k).copied().unwrap_or(0.0)),
+                        "slowest_worker_s": r(merged.part_max_s.get(k).copied().unwrap_or(0.0))}),
+                    )
+                })
+                .collect(),
+        ),
     );
     coverage.insert("classes".into(), json!(merged.classes));
     coverage.insert("discarded".into(), json!(merged.discarded));
@@ -1012,6 +1038,16 @@ fn merge(m: &mut Stats, j: &Value) {
             let e = m.parts.entry(k.clone()).or_default();
             e.0 += v[0].as_u64().unwrap_or(0);
             e.1 += v[1].as_u64().unwrap_or(0);
+        }
+    }
+    if let Some(o) = j["part_s"].as_object() {
+        for (k, v) in o {
+            let x = v.as_f64().unwrap_or(0.0);
+            *m.part_s.entry(k.clone()).or_default() += x;
+            let mx = m.part_max_s.entry(k.clone()).or_default();
+            if x > *mx {
+                *mx = x;
+            }
         }
     }
     for key in ["known_hits", "excluded"] {
